@@ -220,3 +220,74 @@ func (m *monitors) checkReader(r *run, dts map[string]*dtInfo) {
 }
 
 var _ = schema.CollectionNameDatatypes
+
+// ---------------------------------------------------------------- a registration at the same moment (C12)
+
+// joinCall: a ProcessClient request issued together with the Sync calls of an exchange event: a fresh
+// client registering in the same collection, or the registration of one of the syncing clients sent
+// again (a restarted application). Demanded: it is answered, and there is one client document per id.
+func (r *run) joinCall(f *focus, e Ev, started []*actor) *readerCall {
+	w := r.w
+	g := kernel.NewRng(e.S + 0x101)
+	a := started[g.Intn(len(started))]
+	name := fmt.Sprintf("joiner%d", r.step)
+	msg := &model.ClientMessage{Header: model.NewMessageHeader(model.RequestType_CLIENTS), Collection: a.collection, Cuid: g.UID(), ClientAlias: name, SyncType: model.SyncType_MANUALLY}
+	if e.Join == 2 && a.cuid != "" {
+		st := model.SyncType_MANUALLY
+		if a.realtime {
+			st = model.SyncType_REALTIME
+		}
+		msg.Cuid, msg.ClientAlias, msg.SyncType = a.cuid, a.name, st
+	}
+	ncalls := len(w.tr.calls)
+	ep := &endpoint{t: w.tr, name: name}
+	rc := &readerCall{done: make(chan callResult, 1)}
+	go func() {
+		m, err := ep.t.issue(ep.name, "ProcessClient", msg)
+		rc.done <- callResult{msg: m, err: err}
+	}()
+	synctest.Wait()
+	w.tr.mu.Lock()
+	for _, c := range w.tr.calls[ncalls:] {
+		if c.client == name {
+			rc.c = c
+		}
+	}
+	w.tr.mu.Unlock()
+	if rc.c == nil {
+		return nil
+	}
+	f.calls[rc.c] = true
+	f.owners[callOwner(rc.c)] = true
+	r.evOwners[r.step-1] = append(r.evOwners[r.step-1], callOwner(rc.c))
+	r.probe("registration-during-syncs")
+	r.logf("  %s sends ProcessClient(%s) at the same moment (request %s)", name, msg.Cuid, callOwner(rc.c))
+	return rc
+}
+
+func (r *run) joinDone(rc *readerCall) {
+	if rc == nil {
+		return
+	}
+	if rc.c.state == "answered" {
+		r.deliverResp(rc.c, false)
+	}
+	synctest.Wait()
+	select {
+	case res := <-rc.done:
+		if res.err != nil {
+			r.probe("registration-during-syncs-refused")
+		}
+	default:
+		r.fail("serial", "C12.every-call-returns", "no-answer/process-client", "a ProcessClient call sent together with push-pull requests got no answer")
+	}
+	seen := map[string]bool{}
+	for _, d := range r.docsOf(schema.CollectionNameClients) {
+		id, _ := get(d, "_id")
+		k := fmt.Sprint(id)
+		if seen[k] {
+			r.fail("serial", "C12.one-client-per-id", "two-documents", "client id %s has two client documents", k)
+		}
+		seen[k] = true
+	}
+}
